@@ -86,7 +86,7 @@ static inline int32_t ext24(uint32_t a) {
 }
 
 static inline int64_t ext48(uint64_t a) {
-  return (a & 0x00008000000000) ? (a | 0xFFFF0000000000) : a;
+  return (a & 0x0000800000000000) ? (a | 0xFFFF000000000000) : a;
 }
 
 static inline uint8_t bswap8(uint8_t a) {
